@@ -100,10 +100,10 @@ def install_seams() -> None:
         w = CLOCK.get("world")
         return len(w.events) if w is not None else -1
 
-    def recording_get_task_delay(task: ScheduledTask) -> Optional[int]:
+    def recording_get_task_delay(task: ScheduledTask, *args: Any, **kwargs: Any) -> Optional[int]:
         now = wall_us()
         try:
-            res = _orig_get_task_delay(task)
+            res = _orig_get_task_delay(task, *args, **kwargs)
         except BaseException as exc:
             DELAY_LOG.append((now, task, ("raise", type(exc).__name__), _seq()))
             raise
